@@ -679,25 +679,35 @@ func (dr *dirRepo) gc() error {
 	}()
 	// prune an empty repo dir and mark the repo as empty if successful
 	if *dr.conf.Storage.GC.EmptyRepo && len(dr.index.Manifests) == 0 && dr.uploads.IsEmpty() {
+		layoutRemoved := false
 		errDir := func() error {
-			errs := []error{}
-			for _, dir := range []string{
-				filepath.Join(dr.path, uploadDir),
-				filepath.Join(dr.path, blobsDir, "sha256"),
-				filepath.Join(dr.path, blobsDir, "sha512"),
+			rmList := []string{filepath.Join(dr.path, uploadDir)}
+			// include every digest algorithm directory, each must be empty to be removed
+			if algoS, err := os.ReadDir(filepath.Join(dr.path, blobsDir)); err == nil {
+				for _, algo := range algoS {
+					rmList = append(rmList, filepath.Join(dr.path, blobsDir, algo.Name()))
+				}
+			}
+			rmList = append(rmList,
 				filepath.Join(dr.path, blobsDir),
 				filepath.Join(dr.path, indexFile),
 				filepath.Join(dr.path, layoutFile),
 				filepath.Join(dr.path),
-			} {
+			)
+			for _, dir := range rmList {
 				err := os.Remove(dir)
 				if err != nil && !errors.Is(err, fs.ErrNotExist) {
-					errs = append(errs, err)
+					// stop on the first failure, the index and layout must remain while blobs or uploads exist
+					return err
+				}
+				if dir == filepath.Join(dr.path, indexFile) || dir == filepath.Join(dr.path, layoutFile) {
+					layoutRemoved = true
 				}
 			}
-			return errors.Join(errs...)
+			return nil
 		}()
-		if errDir == nil {
+		if errDir == nil || layoutRemoved {
+			// the repo must be initialized again before the next write
 			dr.exists = false
 		}
 	}
